@@ -25,6 +25,9 @@ func c19Claims(rng *Rng, valid bool) *ClaimsDesc {
 			Pick(rng, devs).apply(&d)
 			d.Canon = canonOf(p)
 		}
+		if valid && d.NoSw != nil && rng.Chance(35) {
+			d.NoSw = uip(Pick(rng, []uint{0, 0, 7, 1 << 40}))
+		}
 		normalise(&d)
 		if hasBadUTF8(&d) || hasNilComp(&d) || d.ProfInvalid {
 			continue
